@@ -350,6 +350,10 @@ func (r *Run) Finish(rule string, assumptions ...string) {
 	r.mu.Unlock()
 
 	dir := filepath.Join(Root(), "evidence")
+	if os.Getenv("VERIF_REPO") != "" {
+		// self-test against a scratch copy of the repository: never overwrite real evidence
+		dir = filepath.Join(Root(), "evidence-selftest")
+	}
 	_ = os.MkdirAll(dir, 0755)
 	b, err := json.MarshalIndent(ev, "", " ")
 	if err != nil {
